@@ -214,6 +214,11 @@ func TestC04_Concurrent(t *testing.T) {
 		valid := strings.Join(ref.Words(l, ref.Indices(concEntropies(round)[0])), l.Sep())
 		cases := []seedCase{
 			{M: text(valid), P: "TREZOR"},
+			{M: text(valid), P: text("\u00e9t\u00e9 \uff21\ufb01" + fmt.Sprint(round))},
+			{M: "abandon", P: "\ud55c\uae00 \u304c\u30d0"},
+			{M: "abandon", P: "\u2126 \u00c5ngstr\u00f6m"},
+			{M: "x", P: "short1"},
+			{M: "x", P: "short2"},
 			{M: text(gen.Forms["NFC"].String(valid)), P: "\u00e9\uff21"},
 			{M: text(gen.FullWidth("abandon ability") + fmt.Sprint(round)), P: ""},
 			{M: "\u00c5ngstr\u00f6m \ufb01 " + text(fmt.Sprint(round)), P: "\u0301x"},
